@@ -26,7 +26,7 @@ TARGETS = [
 import importlib.util as _ilu, os as _os
 _sp = _ilu.spec_from_file_location('spec_C04_for_C03', _os.path.join(_os.path.dirname(__file__), '..', 'C04', 'spec.py'))
 _c04 = _ilu.module_from_spec(_sp); _sp.loader.exec_module(_c04)
-_need = ('t_expiration', 'sat_sub', 't_get', 't_expired', 'prelocked_thread_interrupt', 'thread_interrupt', 'prepare_usleep', 'resume_threads_inlined', 'th_min', 'idle_wait')
+_need = ('t_expiration', 'sat_add', 'sat_sub', 't_get', 't_expired', 'prelocked_thread_interrupt', 'thread_interrupt', 'prepare_usleep', 'resume_threads_inlined', 'th_min', 'idle_wait')
 TARGETS += [t for t in _c04.TARGETS if t.name in _need and t.name not in [x.name for x in TARGETS]]
 UNITS = {'cv.c': 'cv.c.in', 'sched.c': '../C04/sched.c.in'}
 PROOFS = [
